@@ -158,8 +158,6 @@ def make_symbolic(spec, name, reg, st):
         raise Unsupported(f'type spec {spec!r}')
     if isinstance(spec, tuple):
         tag = spec[0]
-        if tag == 'opt':
-            raise Unsupported('optional type must be split with cases / returns alternatives')
         if tag == 'tuple':
             return tuple(make_symbolic(t, f'{name}_{i}', reg, st) for i, t in enumerate(spec[1:]))
         if tag == 'const':
@@ -205,6 +203,9 @@ def make_symbolic(spec, name, reg, st):
                                  'bool': z3.BoolSort()}[kind])
                 return SSeq(n, lambda i, f=f: f(_int(i)), kind, name)
             # sequence of records: one uninterpreted function of the position per scalar field
+            optional = isinstance(kind, tuple) and kind[0] == 'opt'
+            if optional:
+                kind = kind[1]
             if isinstance(kind, str) and kind in reg.records:
                 fields = reg.records[kind]
                 ufs = {}
@@ -215,6 +216,7 @@ def make_symbolic(spec, name, reg, st):
                     if srt is None:
                         raise Unsupported(f'sequence of records with a non-scalar field {fname}')
                     ufs[fname] = (z3.Function(f'{name}.{fname}!{id(n)}', z3.IntSort(), srt), ft)
+                isnone = z3.Function(f'{name}.isnone!{id(n)}', z3.IntSort(), z3.BoolSort())
                 q = z3.Int(f'bv!seqrec{id(n)}')
                 for fname, (f, ft) in ufs.items():
                     if ft in ('nat',):
@@ -229,7 +231,8 @@ def make_symbolic(spec, name, reg, st):
                     kt = _int(k)
                     key = kt.get_id() if hasattr(kt, 'get_id') else kt
                     if key not in cache:
-                        cache[key] = SObj(kind, {fn_: f(kt) for fn_, (f, _) in ufs.items()})
+                        cache[key] = SObj(kind, {fn_: f(kt) for fn_, (f, _) in ufs.items()},
+                                          none_if=(isnone(kt) if optional else None))
                     return cache[key]
                 return SSeq(n, elem, 'obj', name)
             raise Unsupported('sequence of this element kind')
@@ -268,6 +271,10 @@ def make_symbolic(spec, name, reg, st):
         if tag == 'record':
             return SObj(spec[1], {f: make_symbolic(t, f'{name}.{f}', reg, st)
                                   for f, t in spec[2].items()})
+        if tag == 'opt':        # ('opt', 'Record'): a record or None (symbolic which)
+            v = make_symbolic(spec[1], name, reg, st)
+            v.none_if = z3.Bool(f'{name}.isnone!{id(v)}')
+            return v
         if tag == 'dict':       # ('dict', {key: spec}): a dict / table with these string keys
             return {k: make_symbolic(t, f'{name}[{k!r}]', reg, st) for k, t in spec[1].items()}
     raise Unsupported(f'type spec {spec!r}')
